@@ -89,6 +89,22 @@ let eval (op : string) (a : string list) : string =
          | Some (p, st') -> st := st'; hex_of_z p)
       | _ -> "BADCASE") calls in
     String.concat "," res
+  | "wrt", [cfg; n; sizes] ->
+    (* the Writer's balancer over several WriteMessages calls: one round-robin state for the
+       Writer's life (default balancer = RoundRobin with chunk size 0); per call the picks are
+       compared as a sorted list, across calls in order *)
+    let n = int_of_n (n_of_hex n) in
+    let chunk = if cfg = "default" then z_of_hex "0" else z_of_hex cfg in
+    let st = ref (rr_init chunk) in
+    let ps = offered_fast n in
+    let calls = List.map (fun h -> int_of_n (n_of_hex h)) (String.split_on_char ',' sizes) in
+    String.concat ";" (List.map (fun k ->
+      let picks = List.init k (fun _ ->
+        match rr_step !st ps with
+        | None -> -1
+        | Some (p, st') -> st := st'; int_of_z p) in
+      let picks = List.sort compare picks in
+      String.concat "," (List.map (fun p -> Printf.sprintf "%x" p) picks)) calls)
   | "hashconc", _ ->
     (* purity under concurrent use: the harness compared every concurrent call with the same
        call made sequentially (Model: the keyed balancers are functions, no state) *)
